@@ -712,3 +712,15 @@ func (ls *Lockset) AtLifted(ins ssa.Instruction) LockSet {
 	}
 	return res
 }
+
+// accessesInScope: the accesses of fn and of its extracted helpers (current scope rooted at fn).
+func (ls *Lockset) accessesInScope(key string, fn *ssa.Function) []Access {
+	res := ls.accessesIn(key, fn)
+	if curProg == nil {
+		return res
+	}
+	for h := range curProg.scopeOf(fn).site {
+		res = append(res, ls.accessesIn(key, h)...)
+	}
+	return res
+}
